@@ -340,6 +340,9 @@ structure Hmm where
 
 def clampW (x : Int) : Int := if x < worst then worst else x
 
+/-- `if (x BETTER_THAN y) y = x;` -/
+def maxI (x y : Int) : Int := if x > y then x else y
+
 /-- `tp[i*4+j]` as the C code reads it (`uint8`, 255 = no transition); scores use `-tp` -/
 def tpAt (tp : Array Int) (i j : Nat) : Int := tp.getD (i * 4 + j) 255
 
@@ -365,16 +368,16 @@ def eval3 (tp : Array Int) (sen0 sen1 sen2 : Int) (h : Hmm) : Hmm × Int :=
     if t0 > t1 then (if t2 > t0 then (t2, h.h0) else (t0, h.h2))
     else (if t2 > t1 then (t2, h.h0) else (t1, h.h1))
   let n2 := clampW n2
-  let best := if n2 > best then n2 else best
+  let best := maxI n2 best
   -- state 1
   let t0 := s1 - tpAt tp 1 1
   let t1 := s0 - tpAt tp 0 1
   let (n1, nh1) := if t0 > t1 then (t0, h.h1) else (t1, h.h0)
   let n1 := clampW n1
-  let best := if n1 > best then n1 else best
+  let best := maxI n1 best
   -- state 0
   let n0 := clampW (s0 - tpAt tp 0 0)
-  let best := if n0 > best then n0 else best
+  let best := maxI n0 best
   ({ h with s0 := n0, s1 := n1, s2 := n2, h1 := nh1, h2 := nh2, out := out, outH := outH }, best)
 
 /-- `hmm_normalize` -/
@@ -437,15 +440,21 @@ def step (tps : Array (Array Int)) (sf ef : Array Int) (sen : Array Int) (f : In
   let hm := advance tps sf ef sen f hm
   ({ hmms := relabel f hm, best := best }, hm.flatMap (rowOf f))
 
+/-- the frames one after the other: `f` = index of the next frame, `rows` = token rows pushed so far, `rn` = whether
+the renormalisation branch was taken so far -/
+def runAux (tps : Array (Array Int)) (sf ef : Array Int) :
+    List (Array Int) → Search → Nat → List (List Tok) → Bool → Search × List (List Tok) × Bool
+  | [], s, _, rows, rn => (s, rows, rn)
+  | sen :: rest, s, f, rows, rn =>
+    let r := step tps sf ef sen (f : Int) s
+    runAux tps sf ef rest r.1 (f + 1) (rows ++ [r.2]) (rn || decide (s.best - 0x300000 < worst))
+
 /-- the whole second pass over the per-frame senone scores; returns the token stack, the final
 `(out_history, out_score)` of the last phone, and whether the renormalisation branch was ever taken -/
 def run (tps : Array (Array Int)) (sf ef : Array Int) (frames : List (Array Int)) : List (List Tok) × Tok × Bool :=
   let n := sf.size
-  let r := frames.foldl (fun (acc : Search × List (List Tok) × Int × Bool) sen =>
-      let (s, rows, f, rn) := acc
-      let (s', row) := step tps sf ef sen f s
-      (s', row :: rows, f + 1, rn || decide (s.best - 0x300000 < worst))) (start n, [], 0, false)
+  let r := runAux tps sf ef frames (start n) 0 [] false
   let last := r.1.hmms.getD (n - 1) {}
-  (r.2.1.reverse, ⟨last.outH, last.out⟩, r.2.2.2)
+  (r.2.1, ⟨last.outH, last.out⟩, r.2.2)
 
 end SSVerif.Align.Step
